@@ -320,7 +320,7 @@ theorem edge_oriented_limited_result_is_unlimited_result (c : Config α)
   edge_oriented_success_monotone_in_limits c (.combined [])
     (fun sz it _ => combined_nil_test sz it) h
 
-omit [Field α] [LinearOrder α] [IsStrictOrderedRing α] [LawfulLit α] in
+omit [Field α] [LinearOrder α] [IsStrictOrderedRing α] [Lit α] [LawfulLit α] in
 /-- the wrapper's route fix-up fails only where one application fails -/
 theorem fixAll_error_internal (fix : List (Branch α) → Except ErrKind (List (Branch α)))
     (hfix : ∀ rt k, fix rt = .error k → k = .internal) :
